@@ -1,4 +1,5 @@
 import HpxVerif.Model.Once
+import HpxVerif.Lemmas.OnceProgLemmas
 
 /-!
 # C20 — lazy per-depth layers initialise once and safely under concurrent first use
@@ -13,7 +14,11 @@ the step relation `Once.step`.  Proved by an inductive invariant, for **any numb
 Assumptions (stated, not proved): `std::sync::Once` behaves as documented (mutual exclusion of the closure, blocking of
 late callers, happens-before from the closure to every caller that returns); sequentially consistent steps;
 the construction is a function of the depth only (the correspondence compares the constants of all 30 layers).
-Tie to the code: yield-point hooks at the four points of both factories; schedules enumerated from this model are
+**Program level** (`Model/OnceProg.lean`): the factory bodies are *regenerated from the source* as instruction lists
+(`factories_from_source`), interpreted with a two-step slot write; `safe_with_torn_writes` proves data-race freedom of
+the slot accesses, single construction and initialised results for every schedule, and `prog_refines_once` ties that
+machine to the four-step one below.
+Tie to the code: translation of the factory bodies; yield-point hooks at the four points of both factories; schedules enumerated from this model are
 replayed on the real code with real threads and the observations (construction counter, blocked or not, value seen)
 compared with the model's; plus an unscheduled stress run; `cargo +nightly miri` in the thorough tier.
 -/
@@ -178,5 +183,44 @@ theorem no_deadlock (s : St) (hi : Inv s) (t : Nat) (ht : ∀ b, s.pc t ≠ .don
 /-- non-vacuity: a three-thread schedule in which thread 1 is blocked while thread 0 initialises -/
 example : (run init [0, 1, 0, 1, 0, 1, 1, 0, 2, 2]).2 = [true, false, true, false, true, true, true, true, true, true] ∧
     (run init [0, 1, 0, 1, 0, 1, 1, 0, 2, 2]).1.cons = 1 := by decide
+
+/-! ## the factories as written in the source, with a torn slot write -/
+
+/-- **tie to the source by translation**: the bodies of `nested::get_or_create` and `lib::get_or_create`, parsed from the
+    working tree on this run (hook statements removed), are both the program `goodProg`
+    = `call_once(|| slot = Some(new))` followed by the final read; both `Once` arrays are plain `static`s and both slot
+    arrays `static mut`, 30 entries each.  An early unsynchronised read, a construction outside the closure, a second
+    write, a `const` array of `Once` … change the generated program and break this theorem. -/
+theorem factories_from_source :
+    OnceProg.decodeProg Gen.layersProg = some OnceProg.goodProg ∧ OnceProg.decodeProg Gen.c2vProg = some OnceProg.goodProg ∧
+    Gen.layersOnceIsStatic = true ∧ Gen.c2vOnceIsStatic = true ∧
+    Gen.layersSlotIsStaticMut = true ∧ Gen.c2vSlotIsStaticMut = true ∧
+    Gen.layersLens = (30, 30) ∧ Gen.c2vLens = (30, 30) := OnceProg.factories_are_goodProg
+
+/-- **safety with non-atomic slot writes** (any number of threads, any interleaving; the store to the slot is two steps
+    and a read scheduled between them is recorded): no read ever observes a store in progress — the slot accesses are
+    data-race free — the object is constructed at most once, and every thread that returns got the initialised object -/
+theorem safe_with_torn_writes (sched : List Nat) :
+    (OnceProg.run true OnceProg.goodProg OnceProg.init sched).race = false ∧
+    (OnceProg.run true OnceProg.goodProg OnceProg.init sched).cons ≤ 1 ∧
+    ∀ t b, (OnceProg.run true OnceProg.goodProg OnceProg.init sched).pc t = .done b →
+      b = true ∧ (OnceProg.run true OnceProg.goodProg OnceProg.init sched).cons = 1 ∧
+      (OnceProg.run true OnceProg.goodProg OnceProg.init sched).slot = .some := OnceProg.safe_torn sched
+
+theorem no_deadlock_prog (s : OnceProg.St) (hi : OnceProg.Inv s) (t : Nat) (ht : ∀ b, s.pc t ≠ .done b) :
+    ∃ u, (OnceProg.step true OnceProg.goodProg s u).isSome = true := OnceProg.no_deadlock s hi t ht
+
+/-- **refinement**: the program-level machine refines the four-step machine `Once.step` whose histories are replayed on
+    the real code through the yield-point hooks (the first half of the write is a stutter step) -/
+theorem prog_refines_once (s s' : OnceProg.St) (t : Nat) (hi : OnceProg.Inv s)
+    (hs : OnceProg.step true OnceProg.goodProg s t = some s') :
+    Once.step (OnceProg.abs s) t = some (OnceProg.abs s') ∨ OnceProg.abs s' = OnceProg.abs s :=
+  OnceProg.refines s s' t hi hs
+
+/-- the shapes that the repair of F5 removed / that seeded changes introduce are unsafe in the same model -/
+theorem unsafe_shapes :
+    (OnceProg.run true [.readRet, .enterOnce 5, .wbegin, .wend, .exitOnce, .readFinal] OnceProg.init [0, 0, 0, 1]).race = true ∧
+    (OnceProg.run false OnceProg.goodProg OnceProg.init [0, 0, 0, 1, 1, 1]).cons = 2 :=
+  ⟨OnceProg.fast_path_races, OnceProg.const_once_constructs_twice⟩
 
 end Hpx.C20
